@@ -320,7 +320,7 @@ def eval_sw(rp, rng=None):
     # the oracle, as the code obtains it, and the weight stack the criterion looks at
     phi = stable_solve(Pn, Px)
     trc = np.trace(phi, axis1=-1, axis2=-2)[..., None, None]
-    Wm = phi / np.maximum(trc.real, eps) if which == 'souden' else phi / (mu + trc)
+    Wm = phi / np.maximum(np.abs(trc), eps) if which == 'souden' else phi / (mu + trc)
     ref_coq = None
     if ref is None:
         # which column did the implementation take?  (identify it by content, then check the arg-max)
@@ -343,7 +343,7 @@ def eval_sw(rp, rng=None):
         xi = np.linalg.solve(Pn, a[..., None])[..., 0]
         cden = np.einsum('...d,...d->...', a.conj(), xi)
         wm = xi / cden[..., None]
-        if which == 'souden' and (np.maximum(trc.real, eps) == trc.real).all():
+        if which == 'souden' and (np.abs(trc) >= eps).all():
             exp = a[..., r, None].conj() * wm
             if relerr(w, exp) > 1e-6:
                 return 'rank-one target: w differs from conj(a_ref) * w_mvdr (rel %.3g)' % relerr(w, exp), 'souden:rank1', _coq_sw(rp, Px, Pn, phi, eps, mu, r, w, rng, ref_coq), None
@@ -364,7 +364,7 @@ def eval_sw(rp, rng=None):
     # invariance to positive scaling (explicit reference channel so that a tie cannot flip the choice)
     c, d = rp['c'], rp['d']
     if which == 'souden':
-        if (np.minimum(trc.real, trc.real * d / c) > 1e3 * eps).all():
+        if (np.minimum(np.abs(trc), np.abs(trc) * d / c) > 1e3 * eps).all():
             w2 = get_mvdr_vector_souden(d * Px, c * Pn, ref_channel=r, eps=rp['eps'])
             if relerr(w2, w) > 1e-7:
                 return 'Souden MVDR changes under positive scaling of the PSDs (rel %.3g)' % relerr(w2, w), 'souden:scale', None, None
